@@ -56,6 +56,19 @@ Theorem C09_seats_never_over_committed_in_any_snapshot : forall A S (ZL : zlike 
 Proof. exact count_seats_every_snapshot. Qed.
 Print Assumptions C09_seats_never_over_committed_in_any_snapshot.
 
+(* QPQ, under EVERY arithmetic (no hypothesis on the value class at all): a count that does not crash ends with at most [seats]
+   winners.  QPQ un-elects everybody when it restarts after an exclusion -- which is why the status theorem above leaves it out --
+   but the loop runs only while a seat is free, a step elects at most one candidate, a restart elects nobody and the closing
+   "elect remaining" step runs only when the hopefuls fit (Proofs/QpqSeats.v).  With the Gregory family above, the seat bound is
+   proved for every rule but the Meek family, where it is false (refutations below). *)
+From Droop Require Import Proofs.QpqSeats.
+Theorem C09_seats_never_over_committed_qpq : forall A cfg pr fuel s k,
+  0 <= cf_nseats cfg -> NoDup (map pc_cid (pr_cands pr)) ->
+  exec (@crashed A) fuel (count_cmd A cfg RQpq) (init_state A cfg pr) = Some (s, k) -> k <> Abort ->
+  nlen (electeds A s) <= cf_nseats cfg.
+Proof. exact count_seats_qpq. Qed.
+Print Assumptions C09_seats_never_over_committed_qpq.
+
 (* what "forward" allows, spelled out *)
 Example C09_forward_relation :
   fwd (Hopeful, None) (Elected, Some true) /\ fwd (Elected, Some true) (Elected, Some false) /\
